@@ -25,7 +25,7 @@ let find_sys (fs : Sexp.t list) : Sexp.t =
   match List.find_opt (function Sexp.List (Sexp.Atom "sys" :: _) -> true | _ -> false) fs with
   | Some s -> s | None -> raise (Sexp.Parse_error "no (sys ..) field")
 
-let all_syms (s : sys) : expr list = List.fold_left (fun acc e -> C01.syms e acc) [] (all_exprs s)
+let all_syms (s : sys) : expr list = List.fold_left (fun acc e -> Evalutil.syms e acc) [] (all_exprs s)
 
 let funcs (s : sys) : (string * expr) list =
   List.concat (List.mapi (fun k st ->
@@ -38,7 +38,7 @@ let funcs (s : sys) : (string * expr) list =
 let same_value st rho1 e1 rho2 e2 : bool =
   match type_of e1 with
   | TBV _ -> ebv rho1 e1 = ebv rho2 e2
-  | TArr (iw, _) -> List.for_all (fun i -> earr rho1 e1 i = earr rho2 e2 i) (C01.sample_indices st iw)
+  | TArr (iw, _) -> List.for_all (fun i -> earr rho1 e1 i = earr rho2 e2 i) (Evalutil.sample_indices st iw)
 
 let handle (x : Sexp.t) : string =
   let id, fs = case_fields x in
@@ -74,12 +74,12 @@ let handle (x : Sexp.t) : string =
       List.iter (fun rm -> List.iter (fun (nm, e) -> if occurs rm e then add ("removed input still occurs in " ^ nm)) f1) removed;
       (* function-by-function equivalence *)
       let ss = all_syms sy in
-      let asgs = C01.assignments st ss in
+      let asgs = Evalutil.assignments st ss in
       let zeroed asg = List.map (fun (s, v) ->
-          if List.exists (expr_eqb s) removed then (s, (match v with C01.VB _ -> C01.VB N0 | C01.VA _ -> C01.VA (N0, N0))) else (s, v)) asg in
+          if List.exists (expr_eqb s) removed then (s, (match v with Evalutil.VB _ -> Evalutil.VB N0 | Evalutil.VA _ -> Evalutil.VA (N0, N0))) else (s, v)) asg in
       (try
          List.iter (fun asg ->
-             let rho1 = C01.env_of (zeroed asg) and rho2 = C01.env_of asg in
+             let rho1 = Evalutil.env_of (zeroed asg) and rho2 = Evalutil.env_of asg in
              List.iter2 (fun (nm, e0) (_, e1) ->
                  if not (same_value st rho1 e0 rho2 e1) then begin
                    add (Printf.sprintf "%s differs from the original" nm); raise Exit end) f0 f1) asgs
@@ -87,7 +87,7 @@ let handle (x : Sexp.t) : string =
       (* lock-step simulation with the reference semantics *)
       if !problems = [] then begin
         (* one base valuation and one list of free valuations, shared by both systems *)
-        let pool = Array.of_list (List.map (fun a -> C01.env_of (zeroed a)) asgs) in
+        let pool = Array.of_list (List.map (fun a -> Evalutil.env_of (zeroed a)) asgs) in
         let base = pool.(Array.length pool - 1) in
         let rho_a = ref (init_seq sy base) and rho_b = ref (init_seq r base) in
         (try
